@@ -694,3 +694,18 @@ def fn_params_rule(run, R="FN"):
         tested = bool(option_tests(f, lambda d: "maybe_expect(" in d and "Comma" in d))
     run.check(bool(commas) and tested, R, R + "|params|comma-separated", f.loc(), "whether another parameter may follow is decided by the comma that was (not) consumed",
               "directive_fn::parse throws away the answer of `maybe_expect(Comma)`: `#fn g(a b) => a - b` is read as two parameters")
+
+
+def asm_argument_file_rule(run, R="INC"):
+    """a path written in an argument is resolved relative to the file the argument was written in, also when the argument travels
+    into an asm block as text: the text substitution recorded for a parameter carries the file (or span) of the argument, so that
+    the re-parsed line can evaluate it under that file.  `EvalContext::set_token_subst` records more than a name and a text"""
+    fs = [f for f in run.prog.real_fns() if f.kind != "Closure" and re.search(r"EvalContext::set_token_subst(::<.*>)?$", f.id)]
+    if not fs:
+        run.violation(R, R + "|asm-argument|anchor", "-", "mechanism not found: EvalContext::set_token_subst")
+        return
+    f = fs[0]
+    tys = [f.local_ty(i) or "" for i in range(1, f.arg_count + 1)]
+    carries = any(re.search(r"Span|FileServerHandle|usize", t_) for t_ in tys[1:])
+    run.check(carries, R, R + "|asm-argument|caller-file", f.loc(), "a text substitution carries the file of the argument's text",
+              "a text substitution records only the parameter's name and the argument's text (%s): `emit incbin(\"x.bin\")` for `emit {f} => asm { ld {f} }` defined in an included file reads `x.bin` next to the rule's file, not next to the file the line was written in" % ", ".join(tys))
